@@ -371,6 +371,49 @@ def cases(seed, tier):
         cs.append(mk_case(f'g{n}', 'pyop', '//', txt(a), str(o)))
         n += 1
     dist['exact_quotient_floordiv'] = n - k0
+    k0 = n
+    # RELATED operands: the second operand is assembled from sub-terms of the first (same base, same coefficient,
+    # same exponent, one term more or less), because the simplifier's branches fire on shared structure
+    # (`lo.l == l`, `r == ro`, equal bases ...) that two independent random trees almost never have
+    # (added after the self-test mutation sweep: Mul.__add__(Add) with a shared coefficient survived)
+    def subterms(t, acc):
+        if not isinstance(t, int):
+            acc.append(t)
+            subterms(t[1], acc)
+            subterms(t[2], acc)
+        return acc
+
+    def related(a, fam):
+        subs = subterms(a, []) or [a]
+        x = rng.choice(subs)
+        b0 = rng.choice(fam)
+        c = rng.choice([2, 3, 5, 7, -1, -2, -3])
+        e1, e2 = rng.randint(1, 30), rng.randint(1, 30)
+        coef = x[1] if (not isinstance(x, int) and x[0] == '*' and isinstance(x[1], int)) else c
+        base = x[1] if (not isinstance(x, int) and x[0] == '^') else b0
+        y = gen(rng, 2, fam, rng.choice(['^', '*', '+']))
+        return rng.choice([
+            ('+', y, x), ('+', x, y), ('*', coef, y), ('+', y, ('*', coef, ('^', base, e1))),
+            ('+', ('*', coef, ('^', base, e1)), y), ('*', coef, ('^', base, e2)), ('^', base, e2),
+            ('+', ('^', base, e1), ('^', base, e2)), ('*', -1, x), ('+', ('*', -1, x), y), ('*', c, x),
+            ('+', ('*', coef, ('^', b0, e1)), ('*', coef, ('^', base, e2))), ('+', a, y), ('*', c, a),
+            ('+', ('*', coef, y), ('^', base, e1)),
+        ])
+    for _ in range(2400 * mult):
+        fam = rng.choice(FAMILIES)
+        a = tree(rng.choice(['+', '*', '^', '+', '*']), fam)
+        b = related(a, fam)
+        try:
+            if abs(value(a)).bit_length() > 1500 or abs(value(b)).bit_length() > 1500:
+                continue
+        except NoValue:
+            continue
+        if rng.random() < 0.5:
+            a, b = b, a
+        op = rng.choice(['+', '+', '+', '-', '-', '*', '<', '=='])
+        cs.append(mk_case(f'g{n}', 'pycmp' if op in ('<', '==') else 'pyop', op, txt(a), txt(b)))
+        n += 1
+    dist['related_operand_pairs'] = n - k0
     return cs, dist
 
 
